@@ -62,7 +62,51 @@ func (d *td) canon() string {
 var c16fk = map[string]types.FloatKind{"half": types.FloatKindHalf, "float": types.FloatKindFloat, "double": types.FloatKindDouble, "fp128": types.FloatKindFP128, "x86_fp80": types.FloatKindX86_FP80, "ppc_fp128": types.FloatKindPPC_FP128}
 
 // build makes a fresh llir type graph for d; named structs come from env.
-func (d *td) build(env map[string]*types.StructType) types.Type {
+func (d *td) build(env map[string]*types.StructType) types.Type { return d.buildWith(env, false) }
+
+// buildWith: with predeclared set, leaves are the package's predeclared singleton types (types.I32,
+// types.Double, types.Void, ...) -- the documented way to name them -- instead of fresh objects;
+// everything above the leaves is still made by the New* constructors plus field assignment, the
+// only way the API offers to set an address space, scalability, packedness or variadicity. A
+// constructor that hands out a shared object for a common case is then written to by the next
+// field assignment.
+func (d *td) buildWith(env map[string]*types.StructType, predeclared bool) types.Type {
+	if predeclared {
+		switch d.K {
+		case "void":
+			return types.Void
+		case "label":
+			return types.Label
+		case "token":
+			return types.Token
+		case "metadata":
+			return types.Metadata
+		case "mmx":
+			return types.MMX
+		case "int":
+			switch d.Bits {
+			case 1:
+				return types.I1
+			case 8:
+				return types.I8
+			case 16:
+				return types.I16
+			case 32:
+				return types.I32
+			case 64:
+				return types.I64
+			}
+		case "float":
+			switch d.FK {
+			case "half":
+				return types.Half
+			case "float":
+				return types.Float
+			case "double":
+				return types.Double
+			}
+		}
+	}
 	switch d.K {
 	case "void":
 		return &types.VoidType{}
@@ -81,19 +125,19 @@ func (d *td) build(env map[string]*types.StructType) types.Type {
 	case "named":
 		return env[d.Name]
 	case "ptr":
-		p := types.NewPointer(d.Elem.build(env))
+		p := types.NewPointer(d.Elem.buildWith(env, predeclared))
 		p.AddrSpace = types.AddrSpace(d.AS)
 		return p
 	case "vec":
-		v := types.NewVector(d.Len, d.Elem.build(env))
+		v := types.NewVector(d.Len, d.Elem.buildWith(env, predeclared))
 		v.Scalable = d.Scal
 		return v
 	case "arr":
-		return types.NewArray(d.Len, d.Elem.build(env))
+		return types.NewArray(d.Len, d.Elem.buildWith(env, predeclared))
 	case "struct":
 		var fs []types.Type
 		for _, f := range d.Fields {
-			fs = append(fs, f.build(env))
+			fs = append(fs, f.buildWith(env, predeclared))
 		}
 		s := types.NewStruct(fs...)
 		s.Packed = d.Packed
@@ -101,9 +145,9 @@ func (d *td) build(env map[string]*types.StructType) types.Type {
 	case "func":
 		var ps []types.Type
 		for _, f := range d.Fields {
-			ps = append(ps, f.build(env))
+			ps = append(ps, f.buildWith(env, predeclared))
 		}
-		f := types.NewFunc(d.Elem.build(env), ps...)
+		f := types.NewFunc(d.Elem.buildWith(env, predeclared), ps...)
 		f.Variadic = d.Variadic
 		return f
 	}
@@ -302,7 +346,7 @@ func runC16(c *fw.Check) {
 	for i, d := range ds {
 		canon[i] = d.canon()
 	}
-	c.Rule = fmt.Sprintf("type universe = all descriptors of constructor depth <=%d over {void,label,token,metadata,x86_mmx,i1,i8,i32,half,float,double, identified structs A,B} with pointers in 2 address spaces, fixed/scalable vectors of 2 lengths, arrays of 2 lengths, literal/packed structs and (variadic) function types of <=2 members; %d universes of bodies for A,B (opaque, plain, self-recursive, mutually recursive, same-body, recursion through function/array, names that read as numbers). For each universe two independent instance sets X,Y are built and Equal is evaluated on ALL ordered pairs X[i],Y[j] and X[i],X[j] against the descriptor identity (reflexive/symmetric/transitive follow from agreeing with an equivalence on all pairs); in the first universe also against instance sets whose non-struct types all carry the same type name, and pairwise different names (only structs are identified by name); each type is printed in a module, re-parsed, and the parsed type compared with ALL types; for every type of depth <=2, every node of its graph and every applicable in-place edit (width, kind, address space, length, scalability, packedness, variadicity, naming a literal struct, replacing an element type) the edited graph -- which has been compared before -- is compared with fresh instances of the edited and of the original type. distinct = ordered pairs.", depth, c16universes)
+	c.Rule = fmt.Sprintf("type universe = all descriptors of constructor depth <=%d over {void,label,token,metadata,x86_mmx,i1,i8,i32,half,float,double, identified structs A,B} with pointers in 2 address spaces, fixed/scalable vectors of 2 lengths, arrays of 2 lengths, literal/packed structs and (variadic) function types of <=2 members; %d universes of bodies for A,B (opaque, plain, self-recursive, mutually recursive, same-body, recursion through function/array, names that read as numbers). For each universe two independent instance sets X,Y are built and Equal is evaluated on ALL ordered pairs X[i],Y[j] and X[i],X[j] against the descriptor identity (reflexive/symmetric/transitive follow from agreeing with an equivalence on all pairs); in the first universe also against instance sets whose leaves are the predeclared singleton types of package types (built in two orders; the predeclared types must be unchanged afterwards), and against sets whose non-struct types all carry the same type name, and pairwise different names (only structs are identified by name); each type is printed in a module, re-parsed, and the parsed type compared with ALL types; for every type of depth <=2, every node of its graph and every applicable in-place edit (width, kind, address space, length, scalability, packedness, variadicity, naming a literal struct, replacing an element type) the edited graph -- which has been compared before -- is compared with fresh instances of the edited and of the original type. distinct = ordered pairs.", depth, c16universes)
 	c.Extra["types"] = n
 	for u := 0; u < c16universes; u++ {
 		envX, envY := c16env(u), c16env(u)
@@ -364,6 +408,27 @@ func runC16(c *fw.Check) {
 				V[i] = d.build(envV)
 				k := 0
 				c16nameBelow(V[i], true, &k)
+			}
+			// instances whose leaves are the predeclared singleton types.
+			envP, envQ := c16env(u), c16env(u)
+			P, Q := make([]types.Type, n), make([]types.Type, n)
+			for i, d := range ds {
+				P[i] = d.buildWith(envP, true)
+			}
+			for i := n - 1; i >= 0; i-- { // the other construction order
+				Q[i] = ds[i].buildWith(envQ, true)
+			}
+			check(u, X, P, "X vs instances over the predeclared singleton types")
+			check(u, P, P, "instances over the predeclared singleton types")
+			check(u, P, Q, "instances over the predeclared singleton types, built in opposite orders")
+			// building them must not have changed the predeclared types themselves.
+			for _, pr := range []struct {
+				t    types.Type
+				want string
+			}{{types.I1Ptr, "i1*"}, {types.I8Ptr, "i8*"}, {types.I16Ptr, "i16*"}, {types.I32Ptr, "i32*"}, {types.I64Ptr, "i64*"}, {types.I128Ptr, "i128*"}, {types.I1, "i1"}, {types.I8, "i8"}, {types.I32, "i32"}, {types.I64, "i64"}, {types.Half, "half"}, {types.Float, "float"}, {types.Double, "double"}, {types.Void, "void"}, {types.Label, "label"}, {types.Token, "token"}, {types.Metadata, "metadata"}, {types.MMX, "x86_mmx"}} {
+				if got := pr.t.String(); got != pr.want {
+					c.Violation("equal/predeclared-type-changed/"+pr.want, c16case{Universe: u, T: pr.want, Got: got, What: "a predeclared type of package types prints differently after types were built through the constructors"})
+				}
 			}
 			check(u, X, V, "X vs named non-struct types below the root")
 			check(u, X, Z, "X vs same-named non-struct types")
